@@ -4,18 +4,29 @@ from checks import raft_witness
 
 META = dict(
     engine="coq+hx_raft",
-    technique="Coq: executable model of raft.rs, refutation witnesses by vm_compute, conditional election-safety theorem by invariant + quorum intersection; "
-              "differential correspondence of the extracted model with the real raft.rs (build-time copy, virtual clock) after every event of adversarial event lists; "
-              "direct two-leaders-in-one-term oracle on the implementation's own states",
-    level_text="The full property is machine-checked FALSE of the faithful model (two witness histories, both reproduced on the real code and recorded as known findings: "
-               "a node votes twice in one term because voting does not raise its term; a candidate counts the answer to a Vote request of an earlier term). "
-               "Machine-checked instead: the quorum-intersection lemma for any cluster size and the theorem that every history without these two decidable classes has at most one "
-               "leader per term (see coq/Props/C27.v for what is pinned). The model is tied to /repo on every run by comparing every node's state, term, log, commit, "
-               "peer table and the in-flight messages after every event of seeded adversarial event lists (delivery, loss, duplication, reordering, arbitrary timer readings, "
-               "client appends) on 3- and 5-node clusters; any unlisted way of getting two leaders in one term is a VIOLATION.",
+    technique="Coq: executable model of raft.rs parameterised by the revision of its election code; full election-safety theorem for the repaired revision by an inductive invariant over all "
+              "event lists (ghost history of votes: terms never decrease, one support per node and term; a leader holds a majority of votes of its term; quorum intersection); refutation "
+              "witnesses by vm_compute for the other revisions; differential correspondence of the extracted model with the real raft.rs (build-time copy, virtual clock) after every "
+              "event of adversarial event lists; direct two-leaders-in-one-term oracle on the implementation's own states",
+    level_text="The check reads the raft.rs it runs against and selects the revision of the model: whether vote_request adopts the request's term when it grants a vote, and whether "
+               "response() counts a Vote/Ok answer only for the candidate's current term (the two repairs fixes/C27-*.diff). "
+               "With BOTH repairs present (revision rr_fixed) the full property is a machine-checked theorem of the model, C27_election_safety: for every cluster size (the one-node "
+               "cluster included) and every adversarial event list (delivery in any order, loss, duplication, arbitrary timer readings, client appends) no two nodes are ever leaders of "
+               "one term; C27_fixed_no_election_classes: in that revision no node supports two candidates in one term, no candidate counts a vote of another term, no node "
+               "acknowledges an Append below a term it voted in. On such a tree the classes double-vote and stale-vote-counted are no longer accepted as known findings: any two "
+               "leaders in one term is a VIOLATION. "
+               "WITHOUT the repairs (revision rr_pinned) the full property is machine-checked FALSE of the faithful model (C27_refuted_double_vote, C27_refuted_stale_vote: "
+               "two witness histories, both reproduced on the real code and recorded as known findings; C27_refuted_unless_both_repairs: each repair alone is not enough) and "
+               "only the conditional theorem C27_partial applies (every history without the two decidable classes has at most one leader per term, any revision) together with "
+               "C27_quorum_intersection (any cluster size). Which revision a run found is in the evidence notes and in input_distribution (raft-revision:...). "
+               "The model of the selected revision is tied to the tree on every run by comparing every node's state, term, log, commit, peer table and the in-flight messages "
+               "after every event of seeded adversarial event lists on 3- and 5-node clusters; the harness also determines the revision by behaviour (a scripted history) and a "
+               "difference from the source reading is reported as a broken correspondence.",
     design_ref="DESIGN.md §5 C27, C27–C30 common",
     level_note="Theorems are about the model; the tie to the code is differential execution. Timers are adversarial values (superset of real clocks); storage is the "
-               "in-memory log with truncate-on-append; HTTP transport and tokio scheduling are outside (handlers are serialised by the RwLock around the raft value).",
+               "in-memory log with truncate-on-append; HTTP transport and tokio scheduling are outside (handlers are serialised by the RwLock around the raft value). "
+               "The revision is selected by reading the source text (vote_request assigns self.term from the request; the (Candidate, Vote, OK) arm or vote_received compares "
+               "request.term with self.term) and cross-checked by behaviour.",
 )
 
 RULE = ("corpus witnesses of the _refuted lemmas, then seeded random adversarial event lists (state-aware generator: deliver/tick/append/drop/duplicate, 3 modes, "
